@@ -148,7 +148,40 @@ func checkScopeMiddleware(w *World, r *Report, m string, p *packages.Package) {
 		}
 	}
 	isCS := func(c *ast.CallExpr) bool { return isGodiIfaceMethod(callee(info, c), "Provider", "CreateScope") }
-	f.lit = innermostLitWith(fi, isCS)
+	// a private function of the integration package (helpers share the package's types.Info)
+	pkgHelper := func(c *ast.CallExpr) *FuncInfo {
+		cal := callee(info, c)
+		if cal == nil || cal.Exported() {
+			return nil
+		}
+		if o := cal.Origin(); o != nil {
+			cal = o
+		}
+		t := w.Decls[cal]
+		if t == nil || t.Pkg != p {
+			return nil
+		}
+		return t
+	}
+	csIn := func(t *FuncInfo) []*ast.CallExpr {
+		var out []*ast.CallExpr
+		for _, c := range callsIn(t.Decl.Body, false) {
+			if isCS(c) {
+				out = append(out, c)
+			}
+		}
+		return out
+	}
+	reachesCS := func(c *ast.CallExpr) bool {
+		if isCS(c) {
+			return true
+		}
+		if t := pkgHelper(c); t != nil && len(csIn(t)) > 0 {
+			return true
+		}
+		return false
+	}
+	f.lit = innermostLitWith(fi, reachesCS)
 	if f.lit == nil {
 		r.Fail("P1", m+"/ScopeMiddleware#create", fi.Decl.Pos(), "no per-request function calling CreateScope")
 		return
@@ -170,19 +203,47 @@ func checkScopeMiddleware(w *World, r *Report, m string, p *packages.Package) {
 		return true
 	})
 	body := f.lit.Body
-	// scope and error variables of the CreateScope call
+	// scope and error variables of the CreateScope call (made here or in a private helper: openScope)
+	var csHelper *FuncInfo   // the helper that holds the CreateScope call, if any
+	var csSite *ast.CallExpr // the call in the request function through which the scope is created
+	csErrObjs := map[types.Object]bool{}
 	ast.Inspect(body, func(x ast.Node) bool {
 		if _, isLit := x.(*ast.FuncLit); isLit {
 			return false
 		}
 		if as, ok := x.(*ast.AssignStmt); ok && len(as.Rhs) == 1 {
-			if c, ok := unparen(as.Rhs[0]).(*ast.CallExpr); ok && isCS(c) {
+			c, ok := unparen(as.Rhs[0]).(*ast.CallExpr)
+			if !ok || !reachesCS(c) {
+				return true
+			}
+			csSite = c
+			if isCS(c) {
 				f.csCount++
 				f.csCall = c
 				if len(as.Lhs) == 2 {
 					f.scope, f.csErr = objOf(info, as.Lhs[0]), objOf(info, as.Lhs[1])
+					csErrObjs[f.csErr] = true
+				}
+				return true
+			}
+			csHelper = pkgHelper(c)
+			for _, l := range as.Lhs {
+				if o := objOf(info, l); o != nil && isNamedType(o.Type(), modPath, "Scope") {
+					f.scope = o
 				}
 			}
+			for _, cc := range csIn(csHelper) {
+				f.csCount++
+				f.csCall = cc
+			}
+			ast.Inspect(csHelper.Decl.Body, func(y ast.Node) bool {
+				if as2, ok := y.(*ast.AssignStmt); ok && len(as2.Rhs) == 1 && len(as2.Lhs) == 2 {
+					if c2, ok := unparen(as2.Rhs[0]).(*ast.CallExpr); ok && isCS(c2) {
+						csErrObjs[objOf(info, as2.Lhs[1])] = true
+					}
+				}
+				return true
+			})
 		}
 		return true
 	})
@@ -197,14 +258,40 @@ func checkScopeMiddleware(w *World, r *Report, m string, p *packages.Package) {
 	{
 		rcv, _, _ := methodCall(f.csCall)
 		bad := ""
+		rcvObj := objOf(info, rcv)
+		ctxParams := f.params
+		if csHelper != nil {
+			// the helper's parameters stand for what the request function passes
+			argOf := map[types.Object]ast.Expr{}
+			k := 0
+			for _, fl2 := range csHelper.Decl.Type.Params.List {
+				for _, nm := range fl2.Names {
+					if k < len(csSite.Args) {
+						argOf[info.Defs[nm]] = csSite.Args[k]
+					}
+					k++
+				}
+			}
+			if a, ok := argOf[rcvObj]; ok {
+				rcvObj = objOf(info, a)
+			} else {
+				rcvObj = nil
+			}
+			ctxParams = map[types.Object]bool{}
+			for po, a := range argOf {
+				if root := rootIdent(a); root != nil && f.params[info.Uses[root]] {
+					ctxParams[po] = true
+				}
+			}
+		}
 		switch {
 		case f.csCount != 1:
 			bad = fmt.Sprintf("%d CreateScope call sites in the per-request function", f.csCount)
-		case objOf(info, rcv) != f.provider || f.provider == nil:
+		case rcvObj != f.provider || f.provider == nil:
 			bad = "CreateScope is called on " + exprStr(rcv) + ", not on the provider passed to ScopeMiddleware"
-		case fl.InLoop(fl.NodeContaining(f.csCall.Pos())):
+		case fl.InLoop(fl.NodeContaining(csSite.Pos())):
 			bad = "CreateScope is called inside a loop"
-		case len(f.csCall.Args) != 1 || !isRequestContext(info, f.csCall.Args[0], f.params):
+		case len(f.csCall.Args) != 1 || !isRequestContext(info, f.csCall.Args[0], ctxParams):
 			bad = "the argument of CreateScope (" + exprStr(f.csCall.Args[0]) + ") is not the request's own context"
 		}
 		r.Check(bad == "", "P1", pre+"#create", f.csCall.Pos(), true, "exactly one CreateScope(request context) on the captured provider, outside any loop", bad)
@@ -244,13 +331,58 @@ func checkScopeMiddleware(w *World, r *Report, m string, p *packages.Package) {
 
 	// ---- event analysis
 	isEH := func(c *ast.CallExpr) bool { return isFieldNamed(info, c.Fun, "ErrorHandler") }
+	inRequest := func(n ast.Node) bool { return f.lit.Body.Pos() <= n.Pos() && n.End() <= f.lit.Body.End() }
+	isScopeTyped := func(e ast.Expr) bool {
+		tv, ok := info.Types[e]
+		return ok && tv.Type != nil && isNamedType(tv.Type, modPath, "Scope")
+	}
+	// in the request function the scope is identified by its variable; in a private
+	// helper (which receives it as a parameter) by its type - there is one scope per request
+	isTheScope := func(c *ast.CallExpr, rcv ast.Expr) bool {
+		if inRequest(c) {
+			return objOf(info, rcv) == f.scope
+		}
+		return isScopeTyped(rcv)
+	}
 	isCloseOnScope := func(c *ast.CallExpr) bool {
 		rcv, name, ok := methodCall(c)
-		return ok && name == "Close" && objOf(info, rcv) == f.scope
+		return ok && name == "Close" && isTheScope(c, rcv)
 	}
 	isScopeContext := func(c *ast.CallExpr) bool {
 		rcv, name, ok := methodCall(c)
-		return ok && name == "Context" && objOf(info, rcv) == f.scope
+		return ok && name == "Context" && isTheScope(c, rcv)
+	}
+	// closesScopeParam: the private helper closes the scope it is given on every path
+	closesScopeParam := func(c *ast.CallExpr) bool {
+		t := pkgHelper(c)
+		if t == nil {
+			return false
+		}
+		k := 0
+		for _, fl2 := range t.Decl.Type.Params.List {
+			for range fl2.Names {
+				if k < len(c.Args) && objOf(info, c.Args[k]) == f.scope {
+					hfl := w.FlowOf(t)
+					hs := hfl.Solve(Spec{Must: true, Node: func(n ast.Node, in Facts) (gen, kill []string) {
+						for _, cc := range callsIn(n, false) {
+							if rcv, name, ok := methodCall(cc); ok && name == "Close" && isScopeTyped(rcv) {
+								gen = append(gen, "closed")
+							}
+						}
+						return
+					}})
+					all := true
+					for _, ex := range hfl.Exits() {
+						if !ex.Panic && !hs.AtExit(ex).Has("closed") {
+							all = false
+						}
+					}
+					return all
+				}
+				k++
+			}
+		}
+		return false
 	}
 	// middleware loop: in the request function itself, or in a private function it calls
 	var mwLoop *iterLoop
@@ -339,11 +471,29 @@ func checkScopeMiddleware(w *World, r *Report, m string, p *packages.Package) {
 		}
 		return true
 	})
+	// error variables bound to a middleware call inside the function that holds the loop
+	mwErrObjs := map[types.Object]bool{}
+	if f.mwErr != nil {
+		mwErrObjs[f.mwErr] = true
+	}
+	if mwLoop != nil {
+		ast.Inspect(mwLoop.Body, func(x ast.Node) bool {
+			if as, ok := x.(*ast.AssignStmt); ok && len(as.Rhs) == 1 && len(as.Lhs) == 1 {
+				if c, ok := unparen(as.Rhs[0]).(*ast.CallExpr); ok && mwLoop.IsElem(c.Fun) {
+					mwErrObjs[objOf(mwLoopInfo, as.Lhs[0])] = true
+				}
+			}
+			return true
+		})
+	}
 	gen := func(n ast.Node) (out []string) {
 		switch s := n.(type) {
 		case *ast.DeferStmt:
+			if !inRequest(s) {
+				return nil // a defer inside a helper ends with the helper
+			}
 			for _, c := range callsIn(s, true) {
-				if isCloseOnScope(c) {
+				if isCloseOnScope(c) || closesScopeParam(c) {
 					out = append(out, "DCL")
 				}
 			}
@@ -363,8 +513,15 @@ func checkScopeMiddleware(w *World, r *Report, m string, p *packages.Package) {
 				out = append(out, "AT")
 			case isMW(c):
 				out = append(out, "MW")
-			case isNext(c):
+			case mwLoop != nil && mwHelper != nil && mwLoop.IsElem(c.Fun) && isInside(c, mwLoop.Body):
+				out = append(out, "MW") // the call through the loop element, inside the helper
+			case inRequest(c) && isNext(c):
 				out = append(out, "NX")
+			case !inRequest(c) && closesScopeParam(c):
+				out = append(out, "CL")
+			}
+			if inRequest(c) && !isCloseOnScope(c) && closesScopeParam(c) {
+				out = append(out, "CL")
 			}
 			if rcv, name, ok := methodCall(c); ok && name == "Locals" && len(c.Args) == 2 && objOf(info, c.Args[1]) == f.scope {
 				_ = rcv
@@ -389,22 +546,23 @@ func checkScopeMiddleware(w *World, r *Report, m string, p *packages.Package) {
 		}
 		failed := (be.Op == token.NEQ) == (i == 0)
 		// which call defined this error most recently? use must facts
-		if o == f.csErr && !in.Has("MW") && !in.Has("cs-ok") {
+		if csErrObjs[o] && !in.Has("MW") && !in.Has("cs-ok") {
 			if failed {
 				gen = append(gen, "cs-failed")
 			} else {
 				gen = append(gen, "cs-ok")
 			}
 		}
-		if o == f.mwErr && f.mwErr != nil && in.Has("cs-ok") {
+		if mwErrObjs[o] && in.Has("cs-ok") {
 			if failed {
 				gen = append(gen, "mw-failed")
 			}
 		}
 		return
 	}
-	must := fl.Solve(Spec{Must: true, Node: func(n ast.Node, in Facts) ([]string, []string) { return gen(n), nil }, Edge: edge})
-	may := fl.Solve(Spec{Must: false, Node: func(n ast.Node, in Facts) ([]string, []string) { return gen(n), nil }, Edge: edge})
+	glob := globalPrefixes("CS", "EH", "CL", "AT", "MW", "NX", "cs-", "mw-", "LOCALS")
+	must := fl.Solve(Spec{Must: true, Global: glob, Node: func(n ast.Node, in Facts) ([]string, []string) { return gen(n), nil }, Edge: edge})
+	may := fl.Solve(Spec{Must: false, Global: glob, Node: func(n ast.Node, in Facts) ([]string, []string) { return gen(n), nil }, Edge: edge})
 
 	// ---- P2
 	{
@@ -534,7 +692,12 @@ func checkScopeMiddleware(w *World, r *Report, m string, p *packages.Package) {
 			if nCalls != 1 {
 				bad = fmt.Sprintf("each configured middleware is called %d times per request", nCalls)
 			}
-			if mwHelper != nil && bad == "" {
+			errHelper := false
+			if mwHelper != nil {
+				hs := mwHelper.Obj.Type().(*types.Signature)
+				errHelper = hs.Results().Len() == 1 && isErrorType(hs.Results().At(0).Type())
+			}
+			if mwHelper != nil && bad == "" && errHelper {
 				// the helper must fail closed: on a middleware error it returns that very error, otherwise nil
 				ast.Inspect(mwLoop.Body, func(x ast.Node) bool {
 					if as, ok := x.(*ast.AssignStmt); ok && len(as.Rhs) == 1 && len(as.Lhs) == 1 {
@@ -897,12 +1060,29 @@ func checkHandle(w *World, r *Report, m string, p *packages.Package) {
 						}
 					}
 				case *ast.DeferStmt:
+					recovers := false
 					for _, c := range callsIn(s, true) {
 						if id, ok := unparen(c.Fun).(*ast.Ident); ok && id.Name == "recover" {
-							n++
-							if !guarded {
-								bad = "a deferred recover() is installed unconditionally: panics are swallowed even when recovery is disabled"
+							recovers = true
+						}
+					}
+					// defer recoverPanic(…): a package function that calls recover() itself
+					if cal := callee(info, s.Call); cal != nil {
+						if o := cal.Origin(); o != nil {
+							cal = o
+						}
+						if t := w.Decls[cal]; t != nil && t.Pkg == p {
+							for _, c := range callsIn(t.Decl.Body, false) {
+								if id, ok := unparen(c.Fun).(*ast.Ident); ok && id.Name == "recover" {
+									recovers = true
+								}
 							}
+						}
+					}
+					if recovers {
+						n++
+						if !guarded {
+							bad = "a deferred recover() is installed unconditionally: panics are swallowed even when recovery is disabled"
 						}
 					}
 				case *ast.BlockStmt:
@@ -919,38 +1099,104 @@ func checkHandle(w *World, r *Report, m string, p *packages.Package) {
 	// scope / controller variables
 	var scopeObj, scopeErr, ctrlObj, ctrlErr, okObj types.Object
 	var fromCall, resolveCall *ast.CallExpr
-	ast.Inspect(body, func(x ast.Node) bool {
-		as, ok := x.(*ast.AssignStmt)
-		if !ok || len(as.Rhs) != 1 {
+	viaAccessor := false
+	// the resolution phase may live in a private (generic) function called from the closure
+	var resHelper *FuncInfo
+	var resHelperCall *ast.CallExpr
+	var ctrlOuter types.Object // the variable the closure binds the helper's controller to
+	hasResolution := func(b *ast.BlockStmt) bool {
+		found := false
+		ast.Inspect(b, func(x ast.Node) bool {
+			if c, ok := x.(*ast.CallExpr); ok {
+				if cal := callee(info, c); cal != nil && cal.Pkg() != nil && cal.Pkg().Path() == modPath && strings.HasPrefix(cal.Name(), "Resolve") {
+					found = true
+				}
+			}
 			return true
+		})
+		return found
+	}
+	if !hasResolution(body) {
+		ast.Inspect(body, func(x ast.Node) bool {
+			as, ok := x.(*ast.AssignStmt)
+			if !ok || len(as.Rhs) != 1 {
+				return true
+			}
+			c, ok := unparen(as.Rhs[0]).(*ast.CallExpr)
+			if !ok {
+				return true
+			}
+			cal := callee(info, c)
+			if cal == nil || cal.Exported() {
+				return true
+			}
+			if o := cal.Origin(); o != nil {
+				cal = o
+			}
+			if t := w.Decls[cal]; t != nil && t.Pkg == p && hasResolution(t.Decl.Body) {
+				resHelper, resHelperCall = t, c
+				ctrlOuter = objOf(info, as.Lhs[0])
+				r.Analysed(t)
+			}
+			return true
+		})
+	}
+	scanBodies := []*ast.BlockStmt{body}
+	if resHelper != nil {
+		scanBodies = append(scanBodies, resHelper.Decl.Body)
+		// request parameters as the helper sees them
+		k := 0
+		for _, fl := range resHelper.Decl.Type.Params.List {
+			for _, nm := range fl.Names {
+				if k < len(resHelperCall.Args) {
+					if root := rootIdent(resHelperCall.Args[k]); root != nil && params[info.Uses[root]] {
+						params[info.Defs[nm]] = true
+					}
+				}
+				k++
+			}
 		}
-		switch rhs := unparen(as.Rhs[0]).(type) {
-		case *ast.CallExpr:
-			cal := callee(info, rhs)
-			if cal != nil && cal.Pkg() != nil && cal.Pkg().Path() == modPath && len(as.Lhs) == 2 {
-				switch {
-				case cal.Name() == "FromContext":
-					scopeObj, scopeErr, fromCall = objOf(info, as.Lhs[0]), objOf(info, as.Lhs[1]), rhs
-				case strings.HasPrefix(cal.Name(), "Resolve"):
-					ctrlObj, ctrlErr, resolveCall = objOf(info, as.Lhs[0]), objOf(info, as.Lhs[1]), rhs
+	}
+	for _, sb := range scanBodies {
+		ast.Inspect(sb, func(x ast.Node) bool {
+			as, ok := x.(*ast.AssignStmt)
+			if !ok || len(as.Rhs) != 1 {
+				return true
+			}
+			switch rhs := unparen(as.Rhs[0]).(type) {
+			case *ast.CallExpr:
+				cal := callee(info, rhs)
+				// the integration's own accessor (fiber: FromContext(c) reads Locals with a checked assertion)
+				if cal != nil && cal.Pkg() == p.Types && cal.Name() == "FromContext" && len(as.Lhs) == 1 {
+					if t := w.Decls[cal]; t != nil && assertsScopeChecked(info, t) {
+						scopeObj, viaAccessor = objOf(info, as.Lhs[0]), true
+					}
+				}
+				if cal != nil && cal.Pkg() != nil && cal.Pkg().Path() == modPath && len(as.Lhs) == 2 {
+					switch {
+					case cal.Name() == "FromContext":
+						scopeObj, scopeErr, fromCall = objOf(info, as.Lhs[0]), objOf(info, as.Lhs[1]), rhs
+					case strings.HasPrefix(cal.Name(), "Resolve"):
+						ctrlObj, ctrlErr, resolveCall = objOf(info, as.Lhs[0]), objOf(info, as.Lhs[1]), rhs
+					}
+				}
+			case *ast.TypeAssertExpr:
+				if rhs.Type != nil && len(as.Lhs) == 2 {
+					if tv, ok := info.Types[rhs.Type]; ok && isNamedType(tv.Type, modPath, "Scope") {
+						scopeObj, okObj = objOf(info, as.Lhs[0]), objOf(info, as.Lhs[1])
+					}
 				}
 			}
-		case *ast.TypeAssertExpr:
-			if rhs.Type != nil && len(as.Lhs) == 2 {
-				if tv, ok := info.Types[rhs.Type]; ok && isNamedType(tv.Type, modPath, "Scope") {
-					scopeObj, okObj = objOf(info, as.Lhs[0]), objOf(info, as.Lhs[1])
-				}
-			}
-		}
-		return true
-	})
+			return true
+		})
+	}
 	// H2
 	{
 		bad := ""
 		switch {
 		case m != "fiber" && (fromCall == nil || len(fromCall.Args) != 1 || !isRequestContext(info, fromCall.Args[0], params)):
 			bad = "the scope is not obtained with godi.FromContext(request context)"
-		case m == "fiber" && okObj == nil:
+		case m == "fiber" && okObj == nil && !viaAccessor:
 			bad = "the scope is not obtained from c.Locals with a checked assertion to godi.Scope"
 		case resolveCall == nil || len(resolveCall.Args) < 1 || objOf(info, resolveCall.Args[0]) != scopeObj:
 			bad = "the controller is not resolved from the request's scope"
@@ -1035,26 +1281,47 @@ func checkHandle(w *World, r *Report, m string, p *packages.Package) {
 		}
 		return
 	}
-	must := fl.Solve(Spec{Must: true, Node: func(n ast.Node, in Facts) ([]string, []string) { return gen(n), nil }, Edge: edge})
-	may := fl.Solve(Spec{Must: false, Node: func(n ast.Node, in Facts) ([]string, []string) { return gen(n), nil }, Edge: edge})
-	// H3
+	hglob := globalPrefixes("SEH", "REH", "RES", "METHOD", "scope-", "res-")
+	hstop := func(h *FuncInfo) bool { return h != resHelper }
+	must := fl.Solve(Spec{Must: true, Global: hglob, Stop: hstop, Node: func(n ast.Node, in Facts) ([]string, []string) { return gen(n), nil }, Edge: edge})
+	may := fl.Solve(Spec{Must: false, Global: hglob, Stop: hstop, Node: func(n ast.Node, in Facts) ([]string, []string) { return gen(n), nil }, Edge: edge})
+	// H3 - evaluated where the failure paths are separate: in the resolution helper when there is one
+	h3fl, h3must, h3may := fl, must, may
+	if resHelper != nil {
+		h3fl = w.FlowOf(resHelper)
+		h3must = h3fl.Solve(Spec{Must: true, Node: func(n ast.Node, in Facts) ([]string, []string) { return gen(n), nil }, Edge: edge})
+		h3may = h3fl.Solve(Spec{Must: false, Node: func(n ast.Node, in Facts) ([]string, []string) { return gen(n), nil }, Edge: edge})
+	}
 	for _, k := range []struct{ fact, handler, other, name string }{
 		{"scope-failed", "SEH", "REH", "scope-error"}, {"res-failed", "REH", "SEH", "resolution-error"}} {
 		bad := ""
 		n := 0
-		for _, ex := range fl.Exits() {
-			if !must.AtExit(ex).Has(k.fact) {
+		for _, ex := range h3fl.Exits() {
+			if !h3must.AtExit(ex).Has(k.fact) {
 				continue
 			}
 			n++
-			if !must.AtExit(ex).Has(k.handler) {
+			if !h3must.AtExit(ex).Has(k.handler) {
 				bad = "the " + k.name + " path does not call its handler"
 			}
-			if may.AtExit(ex).Has("METHOD") {
+			if h3may.AtExit(ex).Has("METHOD") {
 				bad = "the controller method can run on the " + k.name + " path"
 			}
-			if k.fact == "scope-failed" && may.AtExit(ex).Has(k.other) {
+			if k.fact == "scope-failed" && h3may.AtExit(ex).Has(k.other) {
 				bad = "both error handlers can run on the " + k.name + " path"
+			}
+			if resHelper != nil {
+				// the helper reports the failure to the closure
+				bi := -1
+				rsig := resHelper.Obj.Type().(*types.Signature)
+				for i := 0; i < rsig.Results().Len(); i++ {
+					if b, isB := rsig.Results().At(i).Type().Underlying().(*types.Basic); isB && b.Info()&types.IsBoolean != 0 {
+						bi = i
+					}
+				}
+				if ex.Ret == nil || bi < 0 || bi >= len(ex.Ret.Results) || exprStr(ex.Ret.Results[bi]) != "false" {
+					bad = "the " + k.name + " path of " + resHelper.Name() + " does not report the failure to its caller"
+				}
 			}
 		}
 		if n == 0 {
@@ -1079,7 +1346,17 @@ func checkHandle(w *World, r *Report, m string, p *packages.Package) {
 				if scopeErr != nil && !bf.Has("scope-ok") || okObj != nil && !bf.Has("scope-ok") {
 					bad = "the controller method is called without a scope having been found on every path"
 				}
-				if len(c.Args) < 1 || objOf(info, c.Args[0]) != ctrlObj {
+				wantCtrl := ctrlObj
+				if resHelper != nil {
+					wantCtrl = ctrlOuter
+					// the helper hands back the controller it resolved
+					for _, ex := range w.FlowOf(resHelper).Exits() {
+						if ex.Ret != nil && len(ex.Ret.Results) >= 1 && objOf(info, ex.Ret.Results[0]) != ctrlObj {
+							bad = resHelper.Name() + " returns " + exprStr(ex.Ret.Results[0]) + ", not the controller it resolved"
+						}
+					}
+				}
+				if len(c.Args) < 1 || objOf(info, c.Args[0]) != wantCtrl {
 					bad = "the method receives " + exprStr(c.Args[0]) + ", not the resolved controller"
 				}
 				if fl.InLoop(n) {
@@ -1092,4 +1369,28 @@ func checkHandle(w *World, r *Report, m string, p *packages.Package) {
 		}
 		r.Check(bad == "", "H4", pre+"#method", lit.Pos(), true, "the method is called once, dominated by both successes, with the resolved controller", bad)
 	}
+}
+
+// assertsScopeChecked: the function obtains its result through a comma-ok type
+// assertion to godi.Scope of a value read with Locals, returning nil otherwise.
+func assertsScopeChecked(info *types.Info, t *FuncInfo) bool {
+	locals, asserted := false, false
+	ast.Inspect(t.Decl.Body, func(x ast.Node) bool {
+		switch s := x.(type) {
+		case *ast.CallExpr:
+			if _, name, ok := methodCall(s); ok && name == "Locals" {
+				locals = true
+			}
+		case *ast.AssignStmt:
+			if len(s.Lhs) == 2 && len(s.Rhs) == 1 {
+				if ta, ok := unparen(s.Rhs[0]).(*ast.TypeAssertExpr); ok && ta.Type != nil {
+					if tv, ok := info.Types[ta.Type]; ok && isNamedType(tv.Type, modPath, "Scope") {
+						asserted = true
+					}
+				}
+			}
+		}
+		return true
+	})
+	return locals && asserted
 }
